@@ -182,8 +182,12 @@ class CallMixin:
                 main = forall_pat(bvs, z3.Implies(z3.And(*guards2), body), pats)
                 return z3.And(main, z3.Implies(lo_t <= last, inst))
             pats = choose_patterns(bvs, body)
-            if self.opt("witness_marks", False) and len(bvs) == 1:
-                pats = list(pats or []) + [self.witness_mark(bvs[0])]
+            if self.opt("witness_marks", False):
+                # the (universally true) mark in the guard: when the clause is a goal, its Skolem constants are marked, so the
+                # universal hypotheses that trigger on marks are instantiated on them
+                guards = list(guards) + [self.witness_mark(v) for v in bvs]
+                if len(bvs) == 1:
+                    pats = list(pats or []) + [self.witness_mark(bvs[0])]
             return forall_pat(bvs, z3.Implies(z3.And(*guards), body), pats)
         if self.opt("witness_marks", False) and len(bvs) == 1:
             # every existential witness carries the (universally true) mark; every single-variable universal may be instantiated
